@@ -39,12 +39,20 @@ var VersionB1 = []byte{0x31, 0x62, 0x00, 0x00}
 // cborBytes writes the signature attributes map as CBOR using the given encoder so that the map's key is text string and value byte string.
 func (sa SignatureAttributesMap) cborBytes(enc *cbor.Encoder) error {
 	mes := []*cbor.MapEntryEncoder{}
+	var entryErr error
 	for key, value := range sa {
 		mes = append(mes,
 			cbor.GenerateMapEntry(func(keyE *cbor.Encoder, valueE *cbor.Encoder) {
-				keyE.EncodeTextString(key)
-				valueE.EncodeByteString(value)
+				if err := keyE.EncodeTextString(key); err != nil && entryErr == nil {
+					entryErr = fmt.Errorf("attribute name %q: %v", key, err)
+				}
+				if err := valueE.EncodeByteString(value); err != nil && entryErr == nil {
+					entryErr = fmt.Errorf("attribute %q: %v", key, err)
+				}
 			}))
+	}
+	if entryErr != nil {
+		return fmt.Errorf("integrityblock: Failed to encode signature attributes: %v", entryErr)
 	}
 	if err := enc.EncodeMap(mes); err != nil {
 		return fmt.Errorf("integrityblock: Failed to encode signature attributes: %v", err)
